@@ -1287,6 +1287,11 @@ func ruleIOLayer(c *Ctx) {
 					if g, ok := x.X.(*ssa.Global); ok && x.Op == token.MUL && g.Pkg != nil && g.Pkg.Pkg.Path() == "os" && g.Name() == "Stdin" {
 						return strings.Join(names, " <- "), true
 					}
+					// a local that a deferred closure captures lives in a cell
+					if cv := cellValue(x); cv != v {
+						v = cv
+						continue
+					}
 				case *ssa.Call:
 					if len(x.Call.Args) > 0 {
 						names = append(names, calleeName(&x.Call))
